@@ -33,12 +33,14 @@ def make_bay(it):
     return bay
 
 
-def skin(it, bay, name, y1, y2, lazy=False):
+def skin(it, bay, name, y1, y2, lazy=False, plies=1):
     """lazy: the skin is defined by one ply thickness and one material (what StiffPanelBay.add_panel does by default); its per-ply lists
-    exist only after its first _rebuild"""
+    exist only after its first _rebuild.  plies: the skin of total thickness tskin_<name> is made of that many equal plies (two skins of a
+    bay may have different numbers of plies: a ply drop under the stiffener)"""
+    assert not (lazy and plies != 1)
     lamkw = (dict(plyt=real('tskin_' + name), laminaprop=tuple(real(x + 's') for x in MAT)) if lazy else
-             dict(plyts=[real('tskin_' + name)], laminaprops=[tuple(real(x + 's') for x in MAT)]))
-    p = panelctx.new_panel(it, a=bay.attrs['a'], b=bay.attrs['b'], y1=y1, y2=y2, stack=[real('ths')], mu=real('mu_' + name), m=bay.attrs['m'], n=bay.attrs['n'],
+             dict(plyts=[real('tskin_' + name) * Fraction(1, plies)] * plies, laminaprops=[tuple(real(x + 's') for x in MAT)] * plies))
+    p = panelctx.new_panel(it, a=bay.attrs['a'], b=bay.attrs['b'], y1=y1, y2=y2, stack=[real('ths')] * plies, mu=real('mu_' + name), m=bay.attrs['m'], n=bay.attrs['n'],
                            model='plate_clt_donnell_bardell', **lamkw)
     if lazy:
         # as StiffPanelBay.add_panel leaves them (p.plyts = bay.plyts, p.laminaprops = bay.laminaprops: empty lists)
@@ -124,7 +126,7 @@ def check_tstiff2d(led):
             bay = make_bay(it)
             ys = real('ys')
             p1 = skin(it, bay, 'skin1', P.const(0), ys)
-            p2 = skin(it, bay, 'skin2', ys, bay.attrs['b'])
+            p2 = skin(it, bay, 'skin2', ys, bay.attrs['b'], plies=2)
             bb, bf = real('bb'), real('bf')
             it.facts[:] = [to_z3(bay.attrs['a']) > 0, to_z3(bay.attrs['b']) > 0, to_z3(bay.attrs['a']) <= 10 * to_z3(bay.attrs['b']), to_z3(bb) > 0, to_z3(bf) > 0]
             matb = tuple(real(x + 'b') for x in MAT)
@@ -414,7 +416,7 @@ def check_bladestiff1d(led, which=('k0', 'kG0', 'kM')):
                 bay = make_bay(it)
                 ys = real('ys')
                 p1 = skin(it, bay, 'skin1', P.const(0), ys)
-                p2 = skin(it, bay, 'skin2', ys, bay.attrs['b'])
+                p2 = skin(it, bay, 'skin2', ys, bay.attrs['b'], plies=2)
                 bb, bf = real('bb'), real('bf')
                 it.facts[:] = [to_z3(bay.attrs['a']) > 0, to_z3(bay.attrs['b']) > 0, to_z3(bb) > 0, to_z3(bf) > 0]
                 matb = tuple(real(x + 'b') for x in MAT)
@@ -614,7 +616,7 @@ def check_bladestiff2d(led, only=None, base_definition=True):
             bay = make_bay(it)
             ys = real('ys')
             p1 = skin(it, bay, 'skin1', P.const(0), ys, lazy)
-            p2 = skin(it, bay, 'skin2', ys, bay.attrs['b'], lazy)
+            p2 = skin(it, bay, 'skin2', ys, bay.attrs['b'], lazy, plies=1 if lazy else 2)
             bb, bf = real('bb'), real('bf')
             it.facts[:] = [to_z3(bay.attrs['a']) > 0, to_z3(bay.attrs['b']) > 0, to_z3(bay.attrs['a']) <= 10 * to_z3(bay.attrs['b']), to_z3(bb) > 0, to_z3(bf) > 0]
             matb = tuple(real(x + 'b') for x in MAT)
@@ -749,7 +751,7 @@ def check_tstiff2d_kG0_kM(led, only=None):
             bay = make_bay(it)
             ys = real('ys')
             p1 = skin(it, bay, 'skin1', P.const(0), ys)
-            p2 = skin(it, bay, 'skin2', ys, bay.attrs['b'])
+            p2 = skin(it, bay, 'skin2', ys, bay.attrs['b'], plies=2)
             bb, bf = real('bb'), real('bf')
             it.facts[:] = [to_z3(bay.attrs['a']) > 0, to_z3(bay.attrs['b']) > 0, to_z3(bay.attrs['a']) <= 10 * to_z3(bay.attrs['b']), to_z3(bb) > 0, to_z3(bf) > 0]
             matb = tuple(real(x + 'b') for x in MAT)
